@@ -30,8 +30,8 @@ UNITS += [
     arm_unit("encode_fp64_to_imm8", "asmjit::arm::Utils::encode_fp64_to_imm8#(u64", "arm_Utils_encode_fp64_to_imm8__u64", unwind=257),
     arm_unit("is_byte_mask_imm", "asmjit::arm::Utils::is_byte_mask_imm", "arm_Utils_is_byte_mask_imm_u64", unwind=9),
     arm_unit("encode_imm64_byte_mask_to_imm8", "asmjit::arm::Utils::encode_imm64_byte_mask_to_imm8", "arm_Utils_encode_imm64_byte_mask_to_imm8", unwind=9),
-    arm_unit("encode_mov_sequence_32", "asmjit::a64::encode_mov_sequence_32", "a64_encode_mov_sequence_32", unwind=5),
-    arm_unit("encode_mov_sequence_64", "asmjit::a64::encode_mov_sequence_64", "a64_encode_mov_sequence_64", unwind=5,
+    arm_unit("encode_mov_sequence_32", "asmjit::a64::encode_mov_sequence_32", "a64_encode_mov_sequence_32", unwind=5, replay="replay/c17_mov_sequence_32.cpp"),
+    arm_unit("encode_mov_sequence_64", "asmjit::a64::encode_mov_sequence_64", "a64_encode_mov_sequence_64", unwind=5, replay="replay/c17_mov_sequence.cpp",
              note="MOVZ/MOVN/MOVK interpreter reproduces imm for all 2^64 immediates; hw loop of 4 fully unwound"),
     arm_unit("encode_lmh", "asmjit::a64::encode_lmh", "a64_encode_lmh"),
     Unit(name="c17.encode_aarch32_imm", props=["C17"], tu=CW, roots=["asmjit::arm::Utils::encode_aarch32_imm"],
